@@ -283,7 +283,7 @@ def sd_layout(repo: Repo, chk: Check) -> None:
     for p in layout.writer_paths(repo, f):
         n += 1
         has = {"sacl": False, "dacl": False}
-        for c, pol in p.conds:
+        for c, pol in _implied(p.conds):
             if c.info.get("truthy") in has:
                 has[c.info["truthy"]] = pol
         tag = f"sd_to_bytes [sacl={'yes' if has['sacl'] else 'no'}, dacl={'yes' if has['dacl'] else 'no'}]"
@@ -355,3 +355,9 @@ def target_sd(repo: Repo, chk: Check) -> None:
     want = ["ace_to_bytes(self.value, 3)", "ace_to_bytes('S-1-1-0', 2)"]
     got = [unparse(e) for e in d.elts] if isinstance(d, ast.List) else [unparse(d) if d is not None else "missing"]
     chk.ob("O4", site, got == want, "DACL = [allow <sid> mask 3, allow Everyone mask 2] in that order" if got == want else f"DACL is {got}, expected the list {want} (two ACEs even when the SID is S-1-1-0)")
+
+
+def _implied(conds: t.Any) -> t.Any:
+    from .c11 import implied
+
+    return implied(conds)
